@@ -10,10 +10,11 @@ src = f'{ROOT}/{id}/SEEDED'
 diff = f'{src}/change{n}.diff'
 demos = [f for f in os.listdir(src) if f.startswith(f'demo{n}')]
 assert demos, 'no demo'
-wt = '/tmp/sv/wt'
+LANE = os.environ.get('SV_LANE', '')
+wt = f'/tmp/sv{LANE}/wt'
 def sh(cmd, **kw):
     return subprocess.run(cmd, shell=True, capture_output=True, text=True, errors='replace', **kw)
-os.makedirs('/tmp/sv/tmp', exist_ok=True)
+os.makedirs(f'/tmp/sv{LANE}/tmp', exist_ok=True)
 if not os.path.isdir(wt):
     r = sh(f'git -C /repo worktree add -q --detach {wt} HEAD'); assert r.returncode == 0, r.stderr
 sh(f'git -C {wt} checkout -q --detach $(git -C /repo rev-parse HEAD) && git -C {wt} checkout -q -- . && git -C {wt} clean -fdq -e target')
@@ -30,12 +31,12 @@ def build():
     r = sh(f'cd {wt} && cargo build --offline 2>&1 | tail -3'); return 'Finished' in r.stdout, r.stdout
 def run_demo():
     d = demo_files[0]
-    env = dict(os.environ, TMPDIR='/tmp/sv/tmp', N2_WORKTREE=wt)
+    env = dict(os.environ, TMPDIR=f'/tmp/sv{LANE}/tmp', N2_WORKTREE=wt)
     if d.endswith('.sh'):
-        r = subprocess.run(['sh', f'{out}/{d}', f'{wt}/target/debug/n2'], capture_output=True, env=env, cwd='/tmp/sv/tmp', timeout=600)
+        r = subprocess.run(['sh', f'{out}/{d}', f'{wt}/target/debug/n2'], capture_output=True, env=env, cwd=f'/tmp/sv{LANE}/tmp', timeout=600)
         return r.returncode, (r.stdout + r.stderr).decode('utf-8', 'replace')[-600:]
     if d.endswith('.py'):
-        r = subprocess.run(['python3', f'{out}/{d}', f'{wt}/target/debug/n2'], capture_output=True, env=env, cwd='/tmp/sv/tmp', timeout=900)
+        r = subprocess.run(['python3', f'{out}/{d}', f'{wt}/target/debug/n2'], capture_output=True, env=env, cwd=f'/tmp/sv{LANE}/tmp', timeout=900)
         return r.returncode, (r.stdout + r.stderr).decode('utf-8', 'replace')[-600:]
     if d.endswith('.rs'):
         # a test file for tests/: copy it in, run it, remove it
@@ -66,7 +67,7 @@ confirmed = applied and suite_ok and rc0 == 0 and rc1 not in (0, None, 98, 99)
 # our checks against the change
 det = {}
 if confirmed:
-    r = subprocess.run(['python3', '/verif/tools/mutrun.py', '--scratch', '/root/scratch/mutseed', f'{out}/patch.diff:{",".join(checks)}'], capture_output=True, text=True, errors='replace')
+    r = subprocess.run(['python3', '/verif/tools/mutrun.py', '--scratch', f'/root/scratch/mutseed{LANE}', f'{out}/patch.diff:{",".join(checks)}'], capture_output=True, text=True, errors='replace')
     if not r.stdout.strip() or 'FAILED' in r.stdout:
         ran.append('mutrun output: ' + (r.stdout + r.stderr)[-400:])
     for line in r.stdout.splitlines():
